@@ -406,92 +406,110 @@ func checkDest(t *rapid.T, how string, j int, got *dest.Destination, d destModel
 	}
 }
 
+// A section is one [[route]] table of a config file together with the equivalent addRoute command and the
+// settings the documentation promises for it.
+type section struct {
+	toml, cmd  string
+	check      func(t *rapid.T, how string, r route.Route, dir string)
+	nontrivial bool
+	classes    []string
+	sets       map[string]bool // grafanaNet: which of sslverify/spool/blocking the section sets itself
+}
+
+func genCarbonSection(t *rapid.T, suffix string) section {
+	typ := rapid.SampledFrom([]string{"sendAllMatch", "sendFirstMatch", "consistentHashing"}).Draw(t, "type")
+	key := "rk" + rapid.StringMatching(`[a-z]{1,5}`).Draw(t, "key") + suffix
+	rf := genFilterOpts(t, "route")
+	nd := rapid.IntRange(1, 3).Draw(t, "ndest")
+	if typ == "consistentHashing" && nd < 2 {
+		nd = 2
+	}
+	var ds []destModel
+	nset, nomit := 0, 0
+	for j := 0; j < nd; j++ {
+		d := destModel{addr: fmt.Sprintf("127.0.0.1:%d", 1+j), opts: map[string]int{}}
+		if typ == "consistentHashing" {
+			if rapid.Bool().Draw(t, "inst") {
+				d.addr += fmt.Sprintf(":i%d", j)
+			}
+		} else {
+			d.filter = genFilterOpts(t, fmt.Sprintf("d%d", j))
+		}
+		for oi, k := range numOpts {
+			if rapid.Bool().Draw(t, fmt.Sprintf("d%d.%s?", j, k)) {
+				d.opts[k] = 1000 + 101*(oi+1) + 20000*(j+1) // distinct from every default, option and destination
+				nset++
+			} else {
+				nomit++
+			}
+		}
+		d.spool = rapid.SampledFrom([]string{"", "true", "false"}).Draw(t, "spool")
+		d.pickle = rapid.SampledFrom([]string{"", "true", "false"}).Draw(t, "pickle")
+		idx := make([]int, 18)
+		for i := range idx {
+			idx[i] = i
+		}
+		d.order = rapid.Permutation(idx).Draw(t, fmt.Sprintf("d%d.order", j))
+		ds = append(ds, d)
+	}
+	var sb strings.Builder
+	sb.WriteString("[[route]]\n")
+	fmt.Fprintf(&sb, "key = '%s'\ntype = '%s'\n", key, typ)
+	tomlFilter(t, rf, &sb)
+	sb.WriteString("destinations = [\n")
+	for _, d := range ds {
+		fmt.Fprintf(&sb, "  '%s',\n", d.render())
+	}
+	sb.WriteString("]\n")
+	cmd := "addRoute " + typ + " " + key
+	if c := cmdFilter(rf); c != "" {
+		cmd += " " + c
+	}
+	for _, d := range ds {
+		cmd += "  " + d.render()
+	}
+	check := func(t *rapid.T, how string, r route.Route, dir string) {
+		s := r.Snapshot()
+		if s.Key != key || s.Type != typ || filterOf(s.Matcher) != rf {
+			t.Fatalf("%s gives key=%s type=%s filter=%s; want key=%s type=%s filter=%s", how, s.Key, s.Type, filterOf(s.Matcher), key, typ, rf)
+		}
+		if len(s.Dests) != len(ds) {
+			t.Fatalf("%s gives %d destinations, want %d", how, len(s.Dests), len(ds))
+		}
+		for j := range ds {
+			d, err := r.GetDestination(j)
+			if err != nil {
+				t.Fatalf("%s: GetDestination(%d): %v", how, j, err)
+			}
+			checkDest(t, how, j, d, ds[j], dir)
+		}
+	}
+	return section{toml: sb.String(), cmd: cmd, check: check, nontrivial: nset >= 3 && nomit >= 1, classes: []string{"type=" + typ, fmt.Sprintf("ndest=%d", nd)}}
+}
+
 func TestPropCarbonRoute(t *testing.T) {
 	rec := ev.Get("carbon_route")
 	rapid.Check(t, func(t *rapid.T) {
-		typ := rapid.SampledFrom([]string{"sendAllMatch", "sendFirstMatch", "consistentHashing"}).Draw(t, "type")
-		key := "rk" + rapid.StringMatching(`[a-z]{1,5}`).Draw(t, "key")
-		rf := genFilterOpts(t, "route")
-		nd := rapid.IntRange(1, 3).Draw(t, "ndest")
-		if typ == "consistentHashing" && nd < 2 {
-			nd = 2
-		}
-		var ds []destModel
-		nset, nomit := 0, 0
-		for j := 0; j < nd; j++ {
-			d := destModel{addr: fmt.Sprintf("127.0.0.1:%d", 1+j), opts: map[string]int{}}
-			if typ == "consistentHashing" {
-				if rapid.Bool().Draw(t, "inst") {
-					d.addr += fmt.Sprintf(":i%d", j)
-				}
-			} else {
-				d.filter = genFilterOpts(t, fmt.Sprintf("d%d", j))
-			}
-			for oi, k := range numOpts {
-				if rapid.Bool().Draw(t, fmt.Sprintf("d%d.%s?", j, k)) {
-					d.opts[k] = 1000 + 101*(oi+1) + 20000*(j+1) // distinct from every default, option and destination
-					nset++
-				} else {
-					nomit++
-				}
-			}
-			d.spool = rapid.SampledFrom([]string{"", "true", "false"}).Draw(t, "spool")
-			d.pickle = rapid.SampledFrom([]string{"", "true", "false"}).Draw(t, "pickle")
-			idx := make([]int, 18)
-			for i := range idx {
-				idx[i] = i
-			}
-			d.order = rapid.Permutation(idx).Draw(t, fmt.Sprintf("d%d.order", j))
-			ds = append(ds, d)
-		}
-		var sb strings.Builder
-		sb.WriteString("[[route]]\n")
-		fmt.Fprintf(&sb, "key = '%s'\ntype = '%s'\n", key, typ)
-		tomlFilter(t, rf, &sb)
-		sb.WriteString("destinations = [\n")
-		for _, d := range ds {
-			fmt.Fprintf(&sb, "  '%s',\n", d.render())
-		}
-		sb.WriteString("]\n")
-		cmd := "addRoute " + typ + " " + key
-		if c := cmdFilter(rf); c != "" {
-			cmd += " " + c
-		}
-		for _, d := range ds {
-			cmd += "  " + d.render()
-		}
-		check := func(how string, r *recTable) {
-			if len(r.routes) != 1 {
-				t.Fatalf("%s produced %d routes", how, len(r.routes))
-			}
-			s := r.routes[0].Snapshot()
-			if s.Key != key || s.Type != typ || filterOf(s.Matcher) != rf {
-				t.Fatalf("%s gives key=%s type=%s filter=%s; want key=%s type=%s filter=%s", how, s.Key, s.Type, filterOf(s.Matcher), key, typ, rf)
-			}
-			if len(s.Dests) != len(ds) {
-				t.Fatalf("%s gives %d destinations, want %d", how, len(s.Dests), len(ds))
-			}
-			for j := range ds {
-				d, err := r.routes[0].GetDestination(j)
-				if err != nil {
-					t.Fatalf("%s: GetDestination(%d): %v", how, j, err)
-				}
-				checkDest(t, how, j, d, ds[j], r.dir)
-			}
-		}
-		a, err := applyTOML(t, sb.String())
+		sec := genCarbonSection(t, "")
+		a, err := applyTOML(t, sec.toml)
 		if err != nil {
-			t.Fatalf("TOML route refused: %v\n%s", err, sb.String())
+			t.Fatalf("TOML route refused: %v\n%s", err, sec.toml)
 		}
 		defer a.close()
-		check("TOML\n"+sb.String(), a)
-		b, err := applyCmd(cmd)
+		if len(a.routes) != 1 {
+			t.Fatalf("TOML\n%s produced %d routes", sec.toml, len(a.routes))
+		}
+		sec.check(t, "TOML\n"+sec.toml, a.routes[0], a.dir)
+		b, err := applyCmd(sec.cmd)
 		if err != nil {
-			t.Fatalf("command %q refused: %v", cmd, err)
+			t.Fatalf("command %q refused: %v", sec.cmd, err)
 		}
 		defer b.close()
-		check("command "+cmd, b)
-		rec.Case(cmd, nset >= 3 && nomit >= 1, "type="+typ, fmt.Sprintf("ndest=%d", nd))
+		if len(b.routes) != 1 {
+			t.Fatalf("command %q produced %d routes", sec.cmd, len(b.routes))
+		}
+		sec.check(t, "command "+sec.cmd, b.routes[0], b.dir)
+		rec.Case(sec.cmd, sec.nontrivial, sec.classes...)
 	})
 }
 
@@ -499,118 +517,186 @@ func TestPropCarbonRoute(t *testing.T) {
 
 var gnCases int
 
+// genGNSection: with small, bufSize and concurrency are always set (their defaults allocate 240 MB per route).
+func genGNSection(t *rapid.T, suffix string, small bool) section {
+	key := "gn" + rapid.StringMatching(`[a-z]{1,4}`).Draw(t, "key") + suffix
+	rf := genFilterOpts(t, "route")
+	addr := "http://127.0.0.1:1/metrics"
+	apiKey := rapid.SampledFrom([]string{"secret", "123:abc"}).Draw(t, "apikey")
+	schemas, aggf := filepath.Join(scratch, "schemas.conf"), filepath.Join(scratch, "aggregation.conf")
+	type optT struct {
+		name string
+		val  interface{}
+	}
+	want := route.GrafanaNetConfig{Addr: addr, ApiKey: apiKey, SchemasFile: schemas, AggregationFile: aggf, BufSize: 1e7, FlushMaxNum: 5000, FlushMaxWait: 500 * time.Millisecond,
+		Timeout: 10 * time.Second, Concurrency: 100, OrgID: 1, SSLVerify: true, ErrBackoffMin: 100 * time.Millisecond, ErrBackoffFactor: 1.5}
+	var opts []optT
+	set := func(name string, v interface{}) { opts = append(opts, optT{name, v}) }
+	// bufSize / concurrency are left at their (huge) defaults only in the first case of a process
+	if small || rapid.Bool().Draw(t, "bufSize?") {
+		want.BufSize = 1200 + rapid.IntRange(0, 50).Draw(t, "bufSize")
+		set("bufSize", want.BufSize)
+	}
+	if small || rapid.Bool().Draw(t, "concurrency?") {
+		want.Concurrency = 2 + rapid.IntRange(0, 4).Draw(t, "concurrency")
+		set("concurrency", want.Concurrency)
+	}
+	if rapid.Bool().Draw(t, "flushMaxNum?") {
+		want.FlushMaxNum = 4321
+		set("flushMaxNum", 4321)
+	}
+	if rapid.Bool().Draw(t, "flushMaxWait?") {
+		want.FlushMaxWait = 765 * time.Millisecond
+		set("flushMaxWait", 765)
+	}
+	if rapid.Bool().Draw(t, "timeout?") {
+		want.Timeout = 8765 * time.Millisecond
+		set("timeout", 8765)
+	}
+	if rapid.Bool().Draw(t, "orgId?") {
+		want.OrgID = 17
+		set("orgId", 17)
+	}
+	if rapid.Bool().Draw(t, "errBackoffMin?") {
+		want.ErrBackoffMin = 234 * time.Millisecond
+		set("errBackoffMin", 234)
+	}
+	if rapid.Bool().Draw(t, "errBackoffFactor?") {
+		want.ErrBackoffFactor = 2.5
+		set("errBackoffFactor", 2.5)
+	}
+	for _, b := range []string{"sslverify", "spool", "blocking"} {
+		switch rapid.IntRange(0, 2).Draw(t, b+"?") {
+		case 1:
+			set(b, true)
+		case 2:
+			set(b, false)
+		}
+	}
+	for _, o := range opts {
+		switch o.name {
+		case "sslverify":
+			want.SSLVerify = o.val.(bool)
+		case "spool":
+			want.Spool = o.val.(bool)
+		case "blocking":
+			want.Blocking = o.val.(bool)
+		}
+	}
+	var sb strings.Builder
+	sb.WriteString("[[route]]\n")
+	fmt.Fprintf(&sb, "key = '%s'\ntype = 'grafanaNet'\naddr = '%s'\n%s = '%s'\n%s = '%s'\n%s = '%s'\n", key, addr, keyCase(t, "apikey"), apiKey, keyCase(t, "schemasFile"), schemas, keyCase(t, "aggregationFile"), aggf)
+	tomlFilter(t, rf, &sb)
+	cmd := "addRoute grafanaNet " + key
+	if c := cmdFilter(rf); c != "" {
+		cmd += " " + c
+	}
+	cmd += "  " + addr + " " + apiKey + " " + schemas + " " + aggf
+	for _, o := range opts {
+		fmt.Fprintf(&sb, "%s = %v\n", keyCase(t, o.name), o.val)
+		cmd += fmt.Sprintf(" %s=%v", o.name, o.val)
+	}
+	sets := map[string]bool{}
+	for _, o := range opts {
+		sets[o.name] = true
+	}
+	check := func(t *rapid.T, how string, r route.Route, dir string) {
+		g, ok := r.(*route.GrafanaNet)
+		if !ok {
+			t.Fatalf("%s produced a %T", how, r)
+		}
+		if !reflect.DeepEqual(g.Cfg, want) {
+			t.Fatalf("%s gives\n  %+v\nthe documentation says\n  %+v", how, g.Cfg, want)
+		}
+		s := g.Snapshot()
+		if s.Key != key || filterOf(s.Matcher) != rf {
+			t.Fatalf("%s gives key=%s filter=%s, want key=%s filter=%s", how, s.Key, filterOf(s.Matcher), key, rf)
+		}
+	}
+	return section{toml: sb.String(), cmd: cmd, check: check, nontrivial: len(opts) >= 3 && len(opts) < 11, classes: []string{fmt.Sprintf("nopts=%d", len(opts))}, sets: sets}
+}
+
 func TestPropGrafanaNetRoute(t *testing.T) {
 	rec := ev.Get("grafananet_route")
 	rapid.Check(t, func(t *rapid.T) {
 		gnCases++
-		key := "gn" + rapid.StringMatching(`[a-z]{1,4}`).Draw(t, "key")
-		rf := genFilterOpts(t, "route")
-		addr := "http://127.0.0.1:1/metrics"
-		apiKey := rapid.SampledFrom([]string{"secret", "123:abc"}).Draw(t, "apikey")
-		schemas, aggf := filepath.Join(scratch, "schemas.conf"), filepath.Join(scratch, "aggregation.conf")
-		type optT struct {
-			name string
-			val  interface{}
-		}
-		want := route.GrafanaNetConfig{Addr: addr, ApiKey: apiKey, SchemasFile: schemas, AggregationFile: aggf, BufSize: 1e7, FlushMaxNum: 5000, FlushMaxWait: 500 * time.Millisecond,
-			Timeout: 10 * time.Second, Concurrency: 100, OrgID: 1, SSLVerify: true, ErrBackoffMin: 100 * time.Millisecond, ErrBackoffFactor: 1.5}
-		var opts []optT
-		set := func(name string, v interface{}) { opts = append(opts, optT{name, v}) }
-		// bufSize / concurrency are left at their (huge) defaults only in the first case of a process
-		if gnCases > 1 || rapid.Bool().Draw(t, "bufSize?") {
-			want.BufSize = 1200 + rapid.IntRange(0, 50).Draw(t, "bufSize")
-			set("bufSize", want.BufSize)
-		}
-		if gnCases > 1 || rapid.Bool().Draw(t, "concurrency?") {
-			want.Concurrency = 2 + rapid.IntRange(0, 4).Draw(t, "concurrency")
-			set("concurrency", want.Concurrency)
-		}
-		if rapid.Bool().Draw(t, "flushMaxNum?") {
-			want.FlushMaxNum = 4321
-			set("flushMaxNum", 4321)
-		}
-		if rapid.Bool().Draw(t, "flushMaxWait?") {
-			want.FlushMaxWait = 765 * time.Millisecond
-			set("flushMaxWait", 765)
-		}
-		if rapid.Bool().Draw(t, "timeout?") {
-			want.Timeout = 8765 * time.Millisecond
-			set("timeout", 8765)
-		}
-		if rapid.Bool().Draw(t, "orgId?") {
-			want.OrgID = 17
-			set("orgId", 17)
-		}
-		if rapid.Bool().Draw(t, "errBackoffMin?") {
-			want.ErrBackoffMin = 234 * time.Millisecond
-			set("errBackoffMin", 234)
-		}
-		if rapid.Bool().Draw(t, "errBackoffFactor?") {
-			want.ErrBackoffFactor = 2.5
-			set("errBackoffFactor", 2.5)
-		}
-		for _, b := range []string{"sslverify", "spool", "blocking"} {
-			switch rapid.IntRange(0, 2).Draw(t, b+"?") {
-			case 1:
-				set(b, true)
-			case 2:
-				set(b, false)
-			}
-		}
-		for _, o := range opts {
-			switch o.name {
-			case "sslverify":
-				want.SSLVerify = o.val.(bool)
-			case "spool":
-				want.Spool = o.val.(bool)
-			case "blocking":
-				want.Blocking = o.val.(bool)
-			}
-		}
-		var sb strings.Builder
-		sb.WriteString("[[route]]\n")
-		fmt.Fprintf(&sb, "key = '%s'\ntype = 'grafanaNet'\naddr = '%s'\n%s = '%s'\n%s = '%s'\n%s = '%s'\n", key, addr, keyCase(t, "apikey"), apiKey, keyCase(t, "schemasFile"), schemas, keyCase(t, "aggregationFile"), aggf)
-		tomlFilter(t, rf, &sb)
-		cmd := "addRoute grafanaNet " + key
-		if c := cmdFilter(rf); c != "" {
-			cmd += " " + c
-		}
-		cmd += "  " + addr + " " + apiKey + " " + schemas + " " + aggf
-		for _, o := range opts {
-			fmt.Fprintf(&sb, "%s = %v\n", keyCase(t, o.name), o.val)
-			cmd += fmt.Sprintf(" %s=%v", o.name, o.val)
-		}
-		check := func(how string, r *recTable) {
-			if len(r.routes) != 1 {
-				t.Fatalf("%s produced %d routes", how, len(r.routes))
-			}
-			g, ok := r.routes[0].(*route.GrafanaNet)
-			if !ok {
-				t.Fatalf("%s produced a %T", how, r.routes[0])
-			}
-			if !reflect.DeepEqual(g.Cfg, want) {
-				t.Fatalf("%s gives\n  %+v\nthe documentation says\n  %+v", how, g.Cfg, want)
-			}
-			s := g.Snapshot()
-			if s.Key != key || filterOf(s.Matcher) != rf {
-				t.Fatalf("%s gives key=%s filter=%s, want key=%s filter=%s", how, s.Key, filterOf(s.Matcher), key, rf)
-			}
-		}
-		a, err := applyTOML(t, sb.String())
+		sec := genGNSection(t, "", gnCases > 1)
+		a, err := applyTOML(t, sec.toml)
 		if err != nil {
-			t.Fatalf("TOML grafanaNet route refused: %v\n%s", err, sb.String())
+			t.Fatalf("TOML grafanaNet route refused: %v\n%s", err, sec.toml)
 		}
 		defer a.close()
-		check("TOML\n"+sb.String(), a)
+		if len(a.routes) != 1 {
+			t.Fatalf("TOML\n%s produced %d routes", sec.toml, len(a.routes))
+		}
+		sec.check(t, "TOML\n"+sec.toml, a.routes[0], a.dir)
 		if gnCases > 1 { // (the first case may carry the 240 MB default buffer: build it once, not twice)
-			b, err := applyCmd(cmd)
+			b, err := applyCmd(sec.cmd)
 			if err != nil {
-				t.Fatalf("command %q refused: %v", cmd, err)
+				t.Fatalf("command %q refused: %v", sec.cmd, err)
 			}
 			defer b.close()
-			check("command "+cmd, b)
+			if len(b.routes) != 1 {
+				t.Fatalf("command %q produced %d routes", sec.cmd, len(b.routes))
+			}
+			sec.check(t, "command "+sec.cmd, b.routes[0], b.dir)
 		}
-		rec.Case(cmd, len(opts) >= 3 && len(opts) < 11, fmt.Sprintf("nopts=%d", len(opts)))
+		rec.Case(sec.cmd, sec.nontrivial, sec.classes...)
+	})
+}
+
+// ---- several route sections in one file ---------------------------------------------------------------------------
+
+// TestPropRouteSections: a config file lists several [[route]] tables (any mix of types); every one of them must come
+// out exactly as if it had been the only one (i.e. as its addRoute command says), in file order.  What one section sets
+// or omits must not leak into another.
+func TestPropRouteSections(t *testing.T) {
+	rec := ev.Get("route_sections")
+	rapid.Check(t, func(t *rapid.T) {
+		n := rapid.IntRange(2, 4).Draw(t, "nsections")
+		var secs []section
+		ngn := 0
+		for i := 0; i < n; i++ {
+			if rapid.IntRange(0, 2).Draw(t, "kind") > 0 {
+				secs = append(secs, genGNSection(t, fmt.Sprint(i), true))
+				ngn++
+			} else {
+				secs = append(secs, genCarbonSection(t, fmt.Sprint(i)))
+			}
+		}
+		var file strings.Builder
+		var cmds []string
+		for _, s := range secs {
+			file.WriteString(s.toml)
+			cmds = append(cmds, s.cmd)
+		}
+		a, err := applyTOML(t, file.String())
+		if err != nil {
+			t.Fatalf("TOML refused: %v\n%s", err, file.String())
+		}
+		defer a.close()
+		if len(a.routes) != n {
+			t.Fatalf("TOML with %d route sections produced %d routes\n%s", n, len(a.routes), file.String())
+		}
+		for i, s := range secs {
+			s.check(t, fmt.Sprintf("route section %d of TOML\n%s", i, file.String()), a.routes[i], a.dir)
+		}
+		// differing: some grafanaNet section omits a boolean that an earlier section sets
+		differing := false
+		seen := map[string]bool{}
+		for _, s := range secs {
+			if s.sets != nil {
+				for _, b := range []string{"sslverify", "spool", "blocking"} {
+					if seen[b] && !s.sets[b] {
+						differing = true
+					}
+				}
+			}
+			for b := range s.sets {
+				seen[b] = true
+			}
+		}
+		rec.Case(strings.Join(cmds, " ; "), ngn >= 1 && n >= 2 && differing, fmt.Sprintf("sections=%d", n), fmt.Sprintf("grafanaNet=%d", ngn), fmt.Sprintf("omits-what-an-earlier-section-sets=%v", differing))
 	})
 }
 
